@@ -60,7 +60,9 @@ Sources(o) == {k \in 1..Len(refs) :
                   IF o.m > 0 THEN refs[k].m = o.m
                   ELSE refs[k].m = 0 /\ refs[k].tag = o.tag /\ refs[k].attr = o.attr}
 SourceOf(o) == refs[CHOOSE k \in Sources(o) : TRUE]
-Paired(o) == Cardinality(Sources(o)) = 1
+\* exactly one source value - or several that are the same reference in the same place (a srcset may name one file twice)
+Paired(o) == /\ Sources(o) # {}
+             /\ \A j, k \in Sources(o) : refs[j].raw = refs[k].raw /\ refs[j].carrier = refs[k].carrier
 
 \* the failed demand (or "" if none) for output value o with source value s
 FailedDemand(o, s) ==
